@@ -116,19 +116,25 @@ fn write(
 ) -> std::io::Result<usize> {
     let initial_state = state.clone();
 
-    for printable in state.strip_next(buf) {
-        let possible = printable.len();
-        let written = raw.write(printable)?;
-        if possible != written {
-            let divergence = &printable[written..];
-            let offset = offset_to(buf, divergence);
-            let consumed = &buf[..offset];
+    // A call to `write` is at most one attempt to write to the wrapped object: hand over the first
+    // printable run only, so an error leaves nothing delivered and the state as it was
+    let printable = match state.strip_next(buf).next() {
+        Some(printable) => printable,
+        None => return Ok(buf.len()),
+    };
+    let written = match raw.write(printable) {
+        Ok(written) => written,
+        Err(err) => {
             *state = initial_state;
-            state.strip_next(consumed).last();
-            return Ok(offset);
+            return Err(err);
         }
-    }
-    Ok(buf.len())
+    };
+    let divergence = &printable[written..];
+    let offset = offset_to(buf, divergence);
+    let consumed = &buf[..offset];
+    *state = initial_state;
+    state.strip_next(consumed).last();
+    Ok(offset)
 }
 
 fn write_all(
